@@ -59,9 +59,10 @@ func (t DataType) Bytes(endian binary.ByteOrder, value interface{}, length int64
 	case DATE, DATEN:
 		t := asetime.DurationFromDateTime(value.(time.Time))
 		t -= asetime.DurationFromDateTime(asetime.Epoch1900())
+		days, _ := splitDays(t)
 
 		bs := make([]byte, length)
-		endian.PutUint32(bs, uint32(t.Days()))
+		endian.PutUint32(bs, uint32(days))
 		return bs, nil
 	case TIME, TIMEN:
 		dur := asetime.DurationFromTime(value.(time.Time))
@@ -74,17 +75,15 @@ func (t DataType) Bytes(endian binary.ByteOrder, value interface{}, length int64
 		t := asetime.DurationFromDateTime(value.(time.Time))
 		t -= asetime.DurationFromDateTime(asetime.Epoch1900())
 
-		days := t.Days()
+		days, rest := splitDays(t)
 
 		bs := make([]byte, length)
 		switch length {
 		case 4: // SHORTDATE/DATETIME4, DATETIMEN(4)
-			s := asetime.ASEDuration(t.Microseconds() - days*int(asetime.Day))
 			binary.LittleEndian.PutUint16(bs[:2], uint16(days))
-			binary.LittleEndian.PutUint16(bs[2:], uint16(s.Minutes()))
+			binary.LittleEndian.PutUint16(bs[2:], uint16(rest.Minutes()))
 		case 8: // DATETIME, DATETIMEN(8)
-			s := t.Microseconds() - days*int(asetime.Day)
-			s = asetime.MillisecondToFractionalSecond(s)
+			s := asetime.MillisecondToFractionalSecond(rest.Microseconds())
 			binary.LittleEndian.PutUint32(bs[:4], uint32(days))
 			binary.LittleEndian.PutUint32(bs[4:], uint32(s))
 		}
@@ -132,4 +131,18 @@ func (t DataType) Bytes(endian binary.ByteOrder, value interface{}, length int64
 	}
 
 	return bs, nil
+}
+
+// splitDays splits a duration relative to an epoch into whole days,
+// rounded towards negative infinity, and the remaining time of day.
+// The time of day of a point in time before the epoch still counts
+// forward from midnight.
+func splitDays(t asetime.ASEDuration) (int, asetime.ASEDuration) {
+	days := t.Days()
+	rest := t - asetime.ASEDuration(days)*asetime.Day
+	if rest < 0 {
+		days--
+		rest += asetime.Day
+	}
+	return days, rest
 }
